@@ -73,3 +73,27 @@ Definition fold_sources (c : call) : state :=
 
 Definition final_values (c : call) : list val :=
   map (fun d => lookup (d_key d) (fold_sources c)) (c_parser c).
+
+(* ---- with a subcommand: the same fold over the keys of both levels ------------------------------
+   The subcommand's keys are NAME.key; its defaults are defaults, its environment variables are
+   individual environment variables, and its items come after the parent's items on the command line. *)
+Definition prefix_asg (nm : name) (a : assignment) : assignment := (nm :: fst a, snd a).
+Definition prefix_arg (nm : name) (a : arg) : arg :=
+  match a with
+  | AAsg x => AAsg (prefix_asg nm x)
+  | ACfg d => ACfg (map (prefix_asg nm) d)
+  end.
+
+Definition flat_call (sc : scall) : call :=
+  let c := s_parent sc in
+  let nm := s_name sc in
+  {| c_parser := all_decls sc;
+     c_default_env := c_default_env c; c_os_default_env := c_os_default_env c; c_env_arg := c_env_arg c;
+     c_patterns := c_patterns c; c_envcfg := c_envcfg c;
+     c_envvars := c_envvars c ++ map (fun kv => (nm :: fst kv, snd kv)) (s_subenv sc);
+     c_entry := match c_entry c with
+                | EArgs argv => EArgs (argv ++ map (prefix_arg nm) (s_subargv sc))
+                | e => e
+                end |}.
+
+Definition final_values_sub (sc : scall) : list val := final_values (flat_call sc).
